@@ -26,6 +26,40 @@ TRUSTED = ["the PCBO constraint methods (C02)", "puso_to_pubo / pubo_to_puso (C0
 RELS = C02.RELS
 
 
+def counter_handback_source(ctx, rid):
+    """Whatever is written back into self._ancilla by a PCSO constraint method is the counter of a helper that was
+    seeded with self's counter (`_empty_pcbo(self)`): a fresh PCBO() would hand back a counter that restarts at 0."""
+    P, R = ctx.prog, ctx.res
+    for rel, fn in C02.rel_methods(P, 'PCSO').items():
+        selfn = R.self_name(fn)
+        for n in ast.walk(fn.node):
+            if not (isinstance(n, ast.Assign) and any(src(t) == '%s._ancilla' % selfn for t in n.targets)):
+                continue
+            v = n.value
+            ok, why = False, "`%s` is not the counter of the seeded helper" % src(v)
+            if isinstance(v, ast.Attribute) and v.attr in ('_ancilla', 'num_ancillas') and isinstance(v.value, ast.Name):
+                hv = v.value.id
+                defs = [x for s_, x in assignments_to(fn.node, hv) if isinstance(x, ast.AST)]
+
+                def root_call(e):
+                    # strip chained method calls: X.m(...).n(...) -> X
+                    while isinstance(e, ast.Call) and isinstance(e.func, ast.Attribute):
+                        e = e.func.value
+                    return e
+                def seeded(e, depth=4):
+                    r = root_call(e)
+                    if isinstance(r, ast.Call) and call_name(r) == '_empty_pcbo' and r.args and is_name(r.args[0], selfn):
+                        return True
+                    if isinstance(r, ast.Name) and depth > 0:
+                        ds = [x for s_, x in assignments_to(fn.node, r.id) if isinstance(x, ast.AST)]
+                        return bool(ds) and all(seeded(x, depth - 1) for x in ds)
+                    return False
+                ok = bool(defs) and all(seeded(d) for d in defs)
+                why = "helper `%s` is not built on _empty_pcbo(%s): its counter restarts at 0 and is written back over the " \
+                      "model's counter - ancilla names already in the model are handed out again" % (hv, selfn)
+            ctx.inst(rid, fn, n, ok, "counter handed back from the helper seeded with the model's counter" if ok else why)
+
+
 def rules(ctx):
     P, R = ctx.prog, ctx.res
     from .C14 import derived_fields
@@ -42,6 +76,7 @@ def rules(ctx):
     ctx.rule('R03.5', "remaining PCSO methods delegate to the PCBO implementations", floor=9)
 
     meths = C02.rel_methods(P, 'PCSO')
+    C02.record_helpers(ctx, 'R03.1')
     for rel, fn in meths.items():
         selfn = R.self_name(fn)
         hp = fn.params[1]
@@ -159,6 +194,10 @@ def rules(ctx):
     derived_from_copy(ctx, 'R03.3')
     C02.record_not_shared(ctx, 'R03.4')
     C02.copy_ctor_counter(ctx, 'R03.3')
+    counter_handback_source(ctx, 'R03.3')
+    ctx.rule('R03.7', "the weight enters the boolean penalties only linearly (premise: the spin methods delegate to them)", floor=4)
+    from .C16 import weight_linearity
+    weight_linearity(ctx, 'R03.7')
 
     # ---------------------------------------------------------------- R03.5
     table = ['is_solution_valid', 'remove_ancilla_from_solution', 'subs', '__round__', 'update',
